@@ -69,14 +69,14 @@ def plan(tier, seed):
         specs += [dict(seed=seed, shard="control-%d" % i, kind="control", n=20) for i in range(4)]
         specs += [dict(seed=seed, shard="rerun-%d" % i, kind="rerun", n=30) for i in range(4)]
         specs += [dict(seed=seed, shard="pending-%d" % i, kind="pending", n=10) for i in range(4)]
-        specs += [dict(seed=seed, shard="known", kind="known", n=2)]
+        specs += [dict(seed=seed, shard="known", kind="known", n=2), dict(seed=seed, shard="mixed", kind="mixed", n=30)]
     else:
         specs = [dict(seed=seed, shard="product-%d" % i, kind="product", part=i, parts=8, stride=9, repeat=1, n=1) for i in range(8)]
         specs += [dict(seed=seed, shard="random-%d" % i, kind="random", n=8) for i in range(6)]
         specs += [dict(seed=seed, shard="control-0", kind="control", n=6)]
         specs += [dict(seed=seed, shard="rerun-%d" % i, kind="rerun", n=6) for i in range(2)]
         specs += [dict(seed=seed, shard="pending-%d" % i, kind="pending", n=2) for i in range(3)]
-        specs += [dict(seed=seed, shard="known", kind="known", n=1)]
+        specs += [dict(seed=seed, shard="known", kind="known", n=1), dict(seed=seed, shard="mixed", kind="mixed", n=3)]
     del total
     return specs
 
@@ -158,6 +158,13 @@ def gen_random_case(rnd, spec):
                                     "program": [["sleep", 0.01], ["exec_loop", "xs%d" % i, 300, 0.0]]})
             script.append(["adopt", "cross%d" % i])
         gen.setdefault("tags", []).append("cross")
+    if rnd.random() < 0.25:
+        # bystanders waiting for a job in the event loop's default executor (a blocking library call handed to a worker thread)
+        for i in range(rnd.randint(1, 3)):
+            gen["payloads"].append({"id": "exjob%d" % i, "flavour": "asyncio", "when": rnd.choice(["queued", "running"]), "program": [["executor_job"]], "cleanup": {"kind": "none"}})
+            if gen["payloads"][-1]["when"] == "running":
+                script.append(["adopt", "exjob%d" % i])
+        gen.setdefault("tags", []).append("executor_jobs")
     nfail = rnd.choice([1, 2, 2, 3])
     fails = []
     delayed = rnd.random() < 0.8
@@ -240,11 +247,53 @@ def gen_pending_case(rnd, spec):
             "meta": {"kind": "pending", "fail": [[flavour, "raise", what, "exception", "running", False]]}}
 
 
+def gen_mixed_case(rnd, spec):
+    """Two payloads of one coroutine flavour fail in the very same scheduler tick (both wait on one event of their framework),
+    one with an Exception or a return value, the other with a KeyboardInterrupt: a failure has happened, so the run raises."""
+    flavour = ["trio", "asyncio", "trio"][spec.get("case_index", 0) % 3]
+    how, what = rnd.choice([("raise", "LookupError"), ("raise", "CustomWithArgs"), ("return", "str"), ("return", "zero")])
+    order = rnd.choice([["k0", "f0"], ["f0", "k0"]])
+    payloads = {"k0": {"id": "k0", "flavour": flavour, "when": "queued", "program": [["tevent_wait", "go"], ["raise", "KeyboardInterrupt"]], "cleanup": {"kind": "none"}},
+                "f0": {"id": "f0", "flavour": flavour, "when": "queued", "program": [["tevent_wait", "go"], [how, what]], "cleanup": {"kind": "none"}}}
+    gen = {"accept_delay": 0.03, "services": [], "grace": 0.2,
+           "payloads": [payloads[order[0]], payloads[order[1]],
+                        {"id": "setter", "flavour": flavour, "when": "queued", "program": [["sleep", 0.1], ["tevent_set", "go"], ["beat", 0.02, None]], "cleanup": {"kind": "none"}}],
+           "script": [["wait_running", 8], ["expect_end", PATIENCE]]}
+    return {"watchdog": 25, "inject": None, "generations": [gen],
+            "meta": {"kind": "mixed", "flavour": flavour, "fail": [[flavour, how, what, "exception", "queued", True]], "meta_runner": False}}
+
+
+def judge_mixed(case, run, result):
+    fails = [e for e in run.of("fail", gen=0) if e.get("pid") == "f0"]
+    interrupts = [e for e in run.of("fail", gen=0) if e.get("pid") == "k0"]
+    ended = run.first("accept-ended", gen=0)
+    if not fails or not interrupts:
+        result.count("mixed_scenarios_in_which_only_one_of_the_two_got_to_fail")
+        return []
+    flavour = case["meta"]["flavour"]
+    result.count("failures_in_the_same_tick_as_a_keyboardinterrupt_%s" % flavour)
+    f = case["meta"]["fail"][0]
+    desc = "%s %s(%s) in the same scheduler tick as a %s payload's KeyboardInterrupt" % (f[0], f[1], f[2], flavour)
+    if ended is None or run.of("accept-still-running", gen=0):
+        return [("payload failed (%s) but accept kept running for %.0f s" % (desc, PATIENCE), None)]
+    known = "C01/failure-in-the-same-tick-as-a-keyboardinterrupt"
+    if ended["outcome"] == "returned":
+        # asyncio: the KeyboardInterrupt aborts the event loop at once and the run ends as for a plain ^C
+        return [("payload failed (%s): accept returned normally - the failure was dropped" % desc, known if flavour == "asyncio" else None)]
+    if ended.get("exc") == "RuntimeError" and "f0" in (ended.get("matched") or []):
+        return []
+    # it raises, but not the RuntimeError caused by the failure: the group holding both is passed on as it is
+    mech = known if flavour == "trio" and ended.get("exc") in ("BaseExceptionGroup", "ExceptionGroup") else None
+    return [("payload failed (%s): accept raised %s(%s), expected RuntimeError caused by the failure" % (desc, ended.get("exc"), ended.get("msg")), mech)]
+
+
 def judge(case, run, result):
     trouble = common.harness_trouble(run)
     if trouble:
         result.inconc(trouble)
         return []
+    if case["meta"]["kind"] == "mixed":
+        return judge_mixed(case, run, result)
     if case["meta"]["kind"] == "pending":
         fail = run.first("fail", gen=0)
         how = [e["how"] for e in run.of("acceptor", gen=0)]
@@ -274,6 +323,8 @@ def judge(case, run, result):
             result.count("scenarios_without_observed_failure")
         return []
     result.count("scenarios_with_failure")
+    if "executor_jobs" in case["generations"][g].get("tags", []) and run.of("start", gen=g, pid="exjob0"):
+        result.count("failures_beside_asyncio_payloads_waiting_for_executor_jobs")
     if "cross" in case["generations"][g].get("tags", []) and run.of("call", gen=g, op="execute"):
         result.count("failures_beside_trio_payloads_calling_into_asyncio")
     if case["meta"].get("meta_runner"):
@@ -341,8 +392,8 @@ def run_shard(spec):
         gen = lambda i, rep: gen_product_case(core.rng(PID, spec["seed"], "product", i, rep), items[i])  # noqa: E731
     else:
         todo = [(i, 0) for i in range(spec["n"])]
-        g = {"random": gen_random_case, "control": gen_control_case, "rerun": gen_rerun_case, "pending": gen_pending_case, "known": gen_known_case}[spec["kind"]]
-        gen = lambda i, rep: g(core.rng(PID, spec["seed"], spec["shard"], i), spec)  # noqa: E731
+        g = {"random": gen_random_case, "control": gen_control_case, "rerun": gen_rerun_case, "pending": gen_pending_case, "known": gen_known_case, "mixed": gen_mixed_case}[spec["kind"]]
+        gen = lambda i, rep: g(core.rng(PID, spec["seed"], spec["shard"], i), dict(spec, case_index=i))  # noqa: E731
     for i, rep in todo:
         cid = i * 10 + rep
         if only is not None and cid != only:
@@ -358,7 +409,7 @@ def run_shard(spec):
 
 
 def finish(total, tier):
-    need = ["scenarios_with_failure", "scenarios_driving_metarunner_directly", "reruns_of_the_same_runner", "strong_clause_checked", "base_clause_checked", "matched_exception", "matched_return", "control_scenarios",
+    need = ["scenarios_with_failure", "scenarios_driving_metarunner_directly", "reruns_of_the_same_runner", "strong_clause_checked", "base_clause_checked", "failures_beside_asyncio_payloads_waiting_for_executor_jobs", "matched_exception", "matched_return", "control_scenarios",
             "failures_while_a_shutdown_request_was_pending", "failures_beside_trio_payloads_calling_into_asyncio"]
     need += ["reg_" + r for r in REGISTRATIONS] + ["flavour_" + f for f in common.FLAVOURS]
     for name in need:
